@@ -344,4 +344,5 @@ static void czs_gen(Ctx& ctx) {
     });
 }
 
+VK_FRESH_THREADS;
 VK_MAIN("C01")
